@@ -256,8 +256,27 @@ static Result runCall(const Value& c)
     VectorDouble vp(props.begin(), props.end());
     Rule* rule1 = makeRule(c.at("rule").s());
     Rule* rule2 = bi ? makeRule(c.at("rule2").s()) : nullptr;
-    RuleProp* rp = c.getb("norule", false) ? nullptr
-                 : (bi ? RuleProp::createFromRules(rule1, rule2, vp) : RuleProp::createFromRule(rule1, vp));
+    // non-stationary proportions: "propfield" = {"split_x": s, "a": [..], "b": [..]} (fractions per facies, or per
+    // pair of facies with the first index varying fastest): a grid of proportions, "a" for x <= s, "b" beyond
+    DbGrid* dbprop = nullptr;
+    if (c.has("propfield"))
+    {
+      const Value& pf = c.at("propfield");
+      dbprop = makeGrid(c);
+      std::vector<double> pa = pf.at("a").doubles(), pb = pf.at("b").doubles();
+      int split = pf.at("split_x").i();
+      for (int k = 0; k < (int)pa.size(); k++)
+      {
+        VectorDouble col(dbprop->getSampleNumber());
+        for (int i = 0; i < dbprop->getSampleNumber(); i++)
+          col[i] = (dbprop->getCoordinate(i, 0) <= split + 0.5) ? pa[k] : pb[k];
+        dbprop->addColumns(col, "Props." + std::to_string(k + 1), ELoc::P, k);
+      }
+    }
+    RuleProp* rp = nullptr;
+    if (c.getb("norule", false)) rp = nullptr;
+    else if (dbprop != nullptr) rp = bi ? RuleProp::createFromRulesAndDb(rule1, rule2, dbprop) : RuleProp::createFromRuleAndDb(rule1, dbprop);
+    else rp = bi ? RuleProp::createFromRules(rule1, rule2, vp) : RuleProp::createFromRule(rule1, vp);
     int nbsimu = c.geti("nbsimu", 1), seed = c.at("seed").i();
     int gaus = c.getb("gaus", false) ? 1 : 0;
     int nbtuba = c.geti("nbtuba", 20), nburn = c.geti("nburn", 5), niter = c.geti("niter", 20);
@@ -267,7 +286,7 @@ static Result runCall(const Value& c)
     Value names = Value::array();
     for (int k = first; k < grid->getColumnNumber(); k++) names.push(Value(grid->getNameByColIdx(k)));
     r.extra["names"] = names;
-    delete grid; delete data; delete neigh; delete m1; delete m2; delete m3; delete m4; delete rp; delete rule1; delete rule2;
+    delete grid; delete data; delete neigh; delete m1; delete m2; delete m3; delete m4; delete rp; delete rule1; delete rule2; delete dbprop;
   }
   else throw std::runtime_error("unknown op " + op);
   return r;
